@@ -127,12 +127,18 @@ def w_image(pid, tier, seed, job):
             files.append(AW.SampleFile(name=n, pcm=struct.pack("<%dh" % nw, *[(val + w) % 30000 for w in range(nw)])))
         if rng.random() < 0.5:
             rng.shuffle(files)
+        # directory slots that are not samples (deleted entry, unknown / other file type) directly behind a sample
+        if rng.random() < 0.5:
+            for g in range(rng.randint(1, 2)):
+                ghost = AW.SampleFile(name="GH0ST%d" % g, type_byte=rng.choice([0x00, 0xF8, 0x74, 0x64, 0x78]), raw_body=bytes(rng.randrange(256) for _ in range(40)))
+                files.insert(rng.randint(1, len(files)), ghost)
         vols.append(AW.Volume("V%d" % vi, files))
     img = AW.image_bytes([AW.Partition(vols, size_sectors=64)])
     with R.TempImage(img) as path:
         r, tree, reported = R.export(path)
         for v in vols:
-            disp = [AW.displayed_name(f.name) for f in v.files]
+            smp = [f for f in v.files if f.is_sample]
+            disp = [AW.displayed_name(f.name) for f in smp]
             en = C6.impl_export_names(disp)
             case = {"volume": v.name, "names": disp, "export_names": en, "seed": job}
             ctx.count("image_pairing", (tuple(disp),), nontrivial=True)
@@ -161,7 +167,7 @@ def w_image(pid, tier, seed, job):
                 data = w["data"]
                 chans = [data[2 * c::2 * len(src)] for c in range(len(src))]
                 chans = [b"".join(data[i:i + 2] for i in range(2 * c, len(data), 2 * len(src))) for c in range(len(src))]
-                wins = [v.files[i].window() for i in src]
+                wins = [smp[i].window() for i in src]
                 short = min(len(x) for x in wins)
                 for c, (got, want) in enumerate(zip(chans, wins)):
                     ctx.require("channel %d carries the %s sample's words (every frame below the shorter one)" % (c, "LR"[c] if len(src) == 2 else "single"),
